@@ -50,15 +50,16 @@ PROPS = {
     "C01": {
         "runs": lambda tier: [run("locale", features=["likely"], only_panics=True), run("langid", only_panics=True),
                               run("subtags", only_panics=True), run("likely", features=["likely"], only_panics=True),
-                              run("locale", features=["likely"], only_panics=True, profile="debug", gen_ops=["big", "loc_hist"])],
+                              run("locale", features=["likely"], only_panics=True, profile="debug", gen_ops=["big", "loc_hist"]),
+                              run("subtags", only_panics=True, profile="debug", gen_ops=["lang_raw", "script_raw", "region_raw", "variant_raw"])],
         "rule": "all four suites (subtags, langid, locale, likely) under catch_unwind with a recording panic hook and a per-call watchdog; for C01 only panics, "
-                "hangs, aborts and the `big` (100k-subtag) cases count; the `big` cases and all operation histories are run a second time on an UNOPTIMISED build of the harness and library "
+                "hangs, aborts and the `big` (100k-subtag) cases count; the `big` cases and all operation histories and the raw-integer conversions of the four subtag types are run a second time on an UNOPTIMISED build of the harness and library "
                 "(debug assertions and overflow checks on, no tail-call elimination: recursion depth and arithmetic overflow show up there). " + LOCALE_RULE,
     },
     "C03": {"runs": lambda tier: [run("locale", ops=["locale", "extmap", "ext_type"], features=["likely"])], "rule": LOCALE_RULE},
     "C04": {"runs": lambda tier: [run("locale", ops=["loc_canonicalize", "loc_hist"], features=["likely"]), run("langid", ops=["li_canonicalize", "langid", "li_from_parts"])],
             "rule": LOCALE_RULE + " || " + LANGID_RULE},
-    "C05": {"runs": lambda tier: [run("locale", ops=["loc_roundtrip", "extmap", "loc_canonicalize", "loc_hist"], features=["likely"]), run("langid", ops=["li_roundtrip", "li_canonicalize"])],
+    "C05": {"runs": lambda tier: [run("locale", ops=["loc_roundtrip", "extmap", "loc_canonicalize", "loc_hist", "loc_built"], features=["likely"]), run("langid", ops=["li_roundtrip", "li_canonicalize"])],
             "rule": LOCALE_RULE},
     "C09": {"runs": lambda tier: [run("locale", ops=["loc_meta", "li_meta"], features=["likely"])], "rule": LOCALE_RULE},
     "C10": {"runs": lambda tier: [run("locale", ops=["loc_hist"], features=["likely"])], "rule": LOCALE_RULE},
@@ -92,8 +93,9 @@ PROPS = {
                     "serialised (to_string and to_value) and deserialised through four serde_json paths (plain literal, all-\\uXXXX literal, Value::String, from_slice); "
                     "strings needing JSON escapes; fixed and random non-string JSON values. non-trivial = distinct inputs the model accepts",
             "trusted_extra": ["serde 1.x / serde_json 1.x are exercised, not modelled"]},
-    "C17": {"runs": lambda tier: [run("subtags", ops=["lang_raw", "script_raw", "region_raw", "variant_raw"]), run("langid", ops=["li_from_parts", "li_into_parts"]),
-                                  run("locale", ops=["loc_into_parts"], features=["likely"])], "rule": LOCALE_RULE},
+    "C17": {"runs": lambda tier: [run("subtags", ops=["lang_raw", "script_raw", "region_raw", "variant_raw"]),
+                                  run("subtags", ops=["lang_raw", "script_raw", "region_raw", "variant_raw"], profile="debug"), run("langid", ops=["li_from_parts", "li_into_parts"]),
+                                  run("locale", ops=["loc_into_parts", "loc_built"], features=["likely"])], "rule": LOCALE_RULE},
 
     "C06": {
         "runs": simple("likely", ops=["maximize", "li_maximize"], features=["likely"]),
@@ -117,7 +119,7 @@ PROPS = {
         "rule": LIKELY_RULE,
     },
     "C02": {
-        "runs": simple("langid", ops=["langid", "li_canonicalize"]),
+        "runs": simple("langid", ops=["langid", "li_canonicalize", "li_iter"]),
         "rule": LANGID_RULE,
     },
     "C15": {
